@@ -23,11 +23,14 @@ Time(i) == 8 * 4000 + 3 * i + 1          \* capture time of packet i in eighths 
 
 VARIABLES fmt, le, resol, tsoff, extras, pos, divisor, offset, yielded, keys,
           two, resol2, tsoff2, ifaces,     \* a second interface (every second packet is captured on it) and the reader's interface table
-          dsbAt                            \* where the decryption secrets block stands: "pre" (before the first interface description), "start", "mid", "end"
-vars == <<fmt, le, resol, tsoff, extras, pos, divisor, offset, yielded, keys, two, resol2, tsoff2, ifaces, dsbAt>>
+          dsbAt,                           \* where the decryption secrets block stands: "pre" (before the first interface description), "start", "mid", "end"
+          snap                             \* if_snaplen of the interface descriptions: 0 = "no limit", or a limit no packet exceeds; no step of the reader reads it
+vars == <<fmt, le, resol, tsoff, extras, pos, divisor, offset, yielded, keys, two, resol2, tsoff2, ifaces, dsbAt, snap>>
 
 \* the file: sequence of blocks [kind, raw (timestamp units), id]
-OnSecond(i) == two /\ i % 2 = 0
+\* two: "no" = one interface; "alt" = every second packet on the second interface; "all" = every packet on the second interface (the first one
+\* is e.g. a cooked "any" pseudo-interface of another link type that only carries a packet of no connection)
+OnSecond(i) == (two = "alt" /\ i % 2 = 0) \/ two = "all"
 Raw(i) == IF OnSecond(i) THEN (Time(i) - 8 * tsoff2) * (Ups(resol2) \div 8)
           ELSE (Time(i) - 8 * tsoff) * (Ups(resol) \div 8)       \* what the writer stores: (time - offset) in interface units
 Ex(k) == IF k \in extras THEN <<[kind |-> "OTHER", raw |-> 0, id |-> 0, ifc |-> 0]>> ELSE <<>>
@@ -36,22 +39,23 @@ D(where) == IF dsbAt = where THEN <<[kind |-> "DSB", raw |-> 0, id |-> 0, ifc |-
 PktBlocks(i) == IF i > NPkts THEN <<>> ELSE <<[kind |-> "EPB", raw |-> Raw(i), id |-> i, ifc |-> IF OnSecond(i) THEN 2 ELSE 1]>>
                                             \o (IF i = (NPkts + 1) \div 2 THEN D("mid") ELSE <<>>) \o Ex(i + 1) \o PktBlocks(i + 1)
 Idb(n) == [kind |-> "IDB", raw |-> 0, id |-> n, ifc |-> n]
-Blocks == Ex(0) \o D("pre") \o <<Idb(1)>> \o (IF two THEN <<Idb(2)>> ELSE <<>>)
+Blocks == Ex(0) \o D("pre") \o <<Idb(1)>> \o (IF two # "no" THEN <<Idb(2)>> ELSE <<>>)
           \o D("start") \o Ex(1) \o PktBlocks(1) \o D("end")
 
 Init == /\ fmt \in {"pcap", "pcapng"} /\ le \in BOOLEAN
         /\ resol \in (IF fmt = "pcap" THEN {"d6"} ELSE Resols)
         /\ tsoff \in (IF fmt = "pcap" THEN {0} ELSE Offsets)
         /\ extras \in (IF fmt = "pcap" THEN {{}} ELSE SUBSET ExtraKinds)
-        /\ two \in (IF fmt = "pcap" THEN {FALSE} ELSE BOOLEAN)
-        /\ resol2 \in (IF two THEN Resols ELSE {"none"}) /\ tsoff2 \in (IF two THEN Offsets ELSE {0})
+        /\ two \in (IF fmt = "pcap" THEN {"no"} ELSE {"no", "alt", "all"})
+        /\ resol2 \in (IF two # "no" THEN Resols ELSE {"none"}) /\ tsoff2 \in (IF two # "no" THEN Offsets ELSE {0})
+        /\ snap \in {0, 262144}
         /\ dsbAt \in {"pre", "start", "mid", "end"}
         /\ pos = 0 /\ divisor = 0 /\ offset = 0 /\ yielded = <<>> /\ keys = 0 /\ ifaces = <<>>
 
 \* Reader.__init__: byte order from the byte-order magic, divisor / offset from the interface description options
 Open == /\ pos = 0
         /\ divisor' = Ups(resol) /\ offset' = tsoff
-        /\ pos' = 1 /\ UNCHANGED <<fmt, le, resol, tsoff, extras, yielded, keys, two, resol2, tsoff2, ifaces, dsbAt>>
+        /\ pos' = 1 /\ UNCHANGED <<fmt, le, resol, tsoff, extras, yielded, keys, two, resol2, tsoff2, ifaces, dsbAt, snap>>
 \* Reader.__iter__: one block per step
 Step == /\ pos >= 1 /\ pos <= Len(Blocks)
         /\ LET b == Blocks[pos] IN
@@ -62,7 +66,7 @@ Step == /\ pos >= 1 /\ pos <= Len(Blocks)
                                   /\ UNCHANGED <<keys, ifaces>>
              [] b.kind = "DSB" -> /\ keys' = (IF fmt = "pcapng" THEN keys + 1 ELSE keys) /\ UNCHANGED <<yielded, ifaces>>
              [] OTHER -> UNCHANGED <<yielded, keys, ifaces>>
-        /\ pos' = pos + 1 /\ UNCHANGED <<fmt, le, resol, tsoff, extras, divisor, offset, two, resol2, tsoff2, dsbAt>>
+        /\ pos' = pos + 1 /\ UNCHANGED <<fmt, le, resol, tsoff, extras, divisor, offset, two, resol2, tsoff2, dsbAt, snap>>
 Next == Open \/ Step
 Spec == Init /\ [][Next]_vars
 
